@@ -538,3 +538,322 @@ Proof.
   - intros i I Z M. rewrite I. apply N.eqb_neq in Z. rewrite Z. apply N.eqb_neq in M. rewrite M. reflexivity.
   - intro I. rewrite I. reflexivity.
 Qed.
+
+(* ------------------------------------------------------------------------------------------ *)
+(* cleanup interleaved with writers                                                             *)
+(* ------------------------------------------------------------------------------------------ *)
+Definition touch_spec (r : refs) (p : path) : Prop :=
+  In p (r_data r) \/ In p (r_del r) \/ In p (r_tx r) \/
+  (starts_with p "_indices" = true /\ exists u, nth_error p 1 = Some u /\ In u (r_idx r)).
+
+Lemma touches_iff : forall r p, touches r p = true <-> touch_spec r p.
+Proof.
+  intros r p. split; [apply touches_cases|].
+  unfold touch_spec, touches, needs_refs. intros [H|[H|[H|[Hs [u [Hn Hu]]]]]].
+  - apply mem_path_In in H. rewrite H. reflexivity.
+  - apply mem_path_In in H. rewrite H. rewrite !orb_true_r. reflexivity.
+  - apply mem_path_In in H. rewrite H. rewrite !orb_true_r. reflexivity.
+  - apply mem_seg_In in Hu. rewrite Hs, Hn, Hu. rewrite !orb_true_r. reflexivity.
+Qed.
+
+Lemma touches_add : forall a b p, touches (refs_add a b) p = true -> touches a p = true \/ touches b p = true.
+Proof.
+  intros a b p H. apply touches_iff in H. rewrite !touches_iff. unfold touch_spec in *. cbn [refs_add r_data r_del r_tx r_idx] in H.
+  rewrite !in_app_iff in H. destruct H as [[H|H]|[[H|H]|[[H|H]|[Hs [u [Hn Hu]]]]]]; auto 6.
+  apply in_app_iff in Hu as [Hu|Hu]; [right|left]; right; right; right; split; auto; exists u; auto.
+Qed.
+
+Lemma touches_keep : forall k ki r p, touches (keep_refs k ki r) p = true -> touches r p = true.
+Proof.
+  intros k ki r p H. apply touches_iff in H. apply touches_iff. unfold touch_spec in *. cbn [keep_refs r_data r_del r_tx r_idx] in H.
+  destruct H as [H|[H|[H|[Hs [u [Hn Hu]]]]]].
+  - apply filter_In in H as [H _]. auto.
+  - apply filter_In in H as [H _]. auto.
+  - apply filter_In in H as [H _]. auto.
+  - apply filter_In in Hu as [Hu _]. right; right; right. split; auto. exists u. auto.
+Qed.
+
+Lemma touches_no_refs : forall p, touches no_refs p = false.
+Proof.
+  intro p. destruct (touches no_refs p) eqn:E; [|reflexivity]. apply touches_iff in E.
+  destruct E as [[]|[[]|[[]|[_ [u [_ []]]]]]].
+Qed.
+
+Lemma forallb_app' : forall {A} (f : A -> bool) l1 l2, forallb f (l1 ++ l2) = forallb f l1 && forallb f l2.
+Proof. intros A f l1 l2. induction l1 as [|a l1 IH]; cbn [app forallb]; [reflexivity|]. rewrite IH, andb_assoc. reflexivity. Qed.
+
+Lemma forallb_filter : forall {A} (f k : A -> bool) l, forallb f l = true -> forallb f (filter k l) = true.
+Proof.
+  intros A f k l H. rewrite forallb_forall in *. intros x Hx. apply filter_In in Hx as [Hx _]. auto.
+Qed.
+
+Lemma wf_add : forall a b, wf_refs a = true -> wf_refs b = true -> wf_refs (refs_add a b) = true.
+Proof.
+  intros a b Ha Hb. unfold wf_refs in *. cbn [refs_add r_data r_del r_tx].
+  apply andb_true_iff in Ha as [Ha Ha3]. apply andb_true_iff in Ha as [Ha1 Ha2].
+  apply andb_true_iff in Hb as [Hb Hb3]. apply andb_true_iff in Hb as [Hb1 Hb2].
+  rewrite !forallb_app', Ha1, Ha2, Ha3, Hb1, Hb2, Hb3. reflexivity.
+Qed.
+
+Lemma wf_keep : forall k ki r, wf_refs r = true -> wf_refs (keep_refs k ki r) = true.
+Proof.
+  intros k ki r H. unfold wf_refs in *. cbn [keep_refs r_data r_del r_tx].
+  apply andb_true_iff in H as [H H3]. apply andb_true_iff in H as [H1 H2].
+  rewrite (forallb_filter _ k _ H1), (forallb_filter _ k _ H2), (forallb_filter _ k _ H3). reflexivity.
+Qed.
+
+Lemma wf_no_refs : wf_refs no_refs = true. Proof. reflexivity. Qed.
+
+Lemma latest_refs_cases : forall ms,
+  latest_refs ms = no_refs \/ exists m, In m ms /\ m_version m = latest_version ms /\ latest_refs ms = m_refs m.
+Proof.
+  intro ms. unfold latest_refs.
+  destruct (filter (fun m => m_version m =? latest_version ms) ms) as [|m l] eqn:E; [left; reflexivity|].
+  right. exists m. assert (H : In m (filter (fun m => m_version m =? latest_version ms) ms)) by (rewrite E; left; reflexivity).
+  apply filter_In in H as [H1 H2]. apply N.eqb_eq in H2. auto.
+Qed.
+
+Lemma find_file_some : forall p fs f, find_file p fs = Some f -> In f fs /\ p = f_path f.
+Proof.
+  intros p fs f. induction fs as [|g fs IH]; cbn [find_file]; [discriminate|].
+  destruct (path_eqb p (f_path g)) eqn:E.
+  - intro H. inversion H; subst. apply path_eqb_eq in E. split; [left; reflexivity | exact E].
+  - intro H. destruct (IH H) as [A B]. split; [right; exact A | exact B].
+Qed.
+
+Lemma latest_attained : forall ms, ms <> [] -> exists m, In m ms /\ m_version m = latest_version ms.
+Proof.
+  induction ms as [|a l IH]; [congruence|]. intros _. destruct l as [|b l'].
+  - exists a. split; [left; reflexivity|]. unfold latest_version. cbn [map fold_right]. lia.
+  - destruct IH as (m & Hm & Hv); [discriminate|]. unfold latest_version in *.
+    change (fold_right N.max 0 (map m_version (a :: b :: l')))
+      with (N.max (m_version a) (fold_right N.max 0 (map m_version (b :: l')))).
+    destruct (N.max_spec (m_version a) (fold_right N.max 0 (map m_version (b :: l')))) as [[_ E]|[_ E]]; rewrite E.
+    + exists m. split; [right; exact Hm | exact Hv].
+    + exists a. split; [left; reflexivity | reflexivity].
+Qed.
+
+Section Race.
+  Variable dsv : N.
+  Variable tags : list N.
+  Variable pol : policy.
+  Variable now : N.
+  Variable writers : N -> writer.
+  Variable files0 : list file.
+  Variable ms0 : list manifest.
+
+  Notation thr := (verification_threshold now).
+  Notation ws := (in_working_set dsv tags pol).
+  Definition tclaims (t : N) (p : path) : bool := touches (w_own (writers t)) p.
+
+  Hypothesis Hdu : delete_unverified pol = false.
+  Hypothesis Hdsv : dsv <= latest_version ms0.
+  Hypothesis Hne : ms0 <> [].
+  Hypothesis Hwf0 : forall m, In m ms0 -> wf_refs (m_refs m) = true.
+  Hypothesis Hwfw : forall t, wf_refs (w_own (writers t)) = true.
+  Hypothesis Hfresh_m : forall t p m, tclaims t p = true -> In m ms0 -> touches (m_refs m) p = false.
+  Hypothesis Hfresh_f : forall t f, In f files0 -> tclaims t (f_path f) = true -> thr <= f_mtime f.
+  Hypothesis Hyoung : forall t f, In f (w_puts (writers t)) -> thr <= f_mtime f.
+
+  Notation step := (step dsv tags pol now writers).
+  Notation run := (run dsv tags pol now writers).
+
+  Record Inv (w : world) : Prop := {
+    iA : forall f t, In f (wd_files w) -> tclaims t (f_path f) = true -> thr <= f_mtime f;
+    iB : exists m, In m (wd_manifests w) /\ dsv <= m_version m;
+    iC : forall m p, In m (wd_manifests w) -> dsv <= m_version m -> touches (m_refs m) p = true ->
+           (exists m0, In m0 ms0 /\ dsv <= m_version m0 /\ touches (m_refs m0) p = true) \/ (exists t, tclaims t p = true);
+    iC2 : forall m, In m (wd_manifests w) -> In m ms0 \/ dsv <= m_version m;
+    iD : forall p, In p (wd_pending w) \/ In p (wd_removed w) ->
+           (forall m0, In m0 ms0 -> dsv <= m_version m0 -> touches (m_refs m0) p = false) /\ (forall t, tclaims t p = false);
+    iE : wd_phase w = CStart -> incl ms0 (wd_manifests w) /\ wd_pending_m w = [];
+    iF : forall m, In m (wd_manifests w) -> wf_refs (m_refs m) = true;
+    iG : forall insp, wd_phase w = CInspected insp ->
+           exists S, insp = process_manifests dsv tags pol S /\ incl ms0 S /\
+                     (forall m, In m S -> wf_refs (m_refs m) = true /\ (In m ms0 \/ dsv <= m_version m));
+    iH : forall v, In v (wd_pending_m w) -> v < dsv;
+    iT : forall t f, In f (ws_todo (wd_writers w t)) -> In f (w_puts (writers t));
+    iW : forall t m, ws_committed (wd_writers w t) = Some m ->
+           In m (wd_manifests w) /\ dsv < m_version m /\ ws_todo (wd_writers w t) = [];
+    iS : forall f, In f files0 -> In (f_path f) (wd_removed w) \/ In f (wd_files w);
+    iS2 : forall t f, In f (w_puts (writers t)) ->
+           In f (ws_todo (wd_writers w t)) \/ In (f_path f) (wd_removed w) \/ In f (wd_files w)
+  }.
+
+  Lemma latest_in : exists m, In m ms0 /\ m_version m = latest_version ms0.
+  Proof. apply latest_attained. exact Hne. Qed.
+
+  Lemma inv_init : Inv (init writers files0 ms0).
+  Proof.
+    destruct latest_in as (mL & HmL & HvL).
+    constructor; cbn [init wd_files wd_manifests wd_phase wd_pending wd_pending_m wd_removed wd_writers ws_todo ws_committed].
+    - intros f t Hf Hc. eapply Hfresh_f; eassumption.
+    - exists mL. split; [exact HmL | lia].
+    - intros m p Hm Hv Ht. left. exists m. auto.
+    - intros m Hm. left. exact Hm.
+    - intros p [[]|[]].
+    - intros _. split; [apply incl_refl | reflexivity].
+    - exact Hwf0.
+    - intros insp H. discriminate.
+    - intros v [].
+    - intros t f H. exact H.
+    - intros t m H. discriminate.
+    - intros f Hf. right. exact Hf.
+    - intros t f Hf. left. exact Hf.
+  Qed.
+
+  Lemma not_ws_lt : forall m, ws m = false -> m_version m < dsv.
+  Proof.
+    intros m H. unfold in_working_set, is_latest in H. apply orb_false_iff in H as [H _]. apply orb_false_iff in H as [H _].
+    apply N.leb_gt in H. exact H.
+  Qed.
+
+  Lemma ge_ws : forall m, dsv <= m_version m -> ws m = true.
+  Proof. intros m H. unfold in_working_set, is_latest. apply N.leb_le in H. rewrite H. reflexivity. Qed.
+
+  Lemma inv_step : forall w e, Inv w -> Inv (step w e).
+  Proof.
+    intros w e I. destruct e as [|p|p|v|t]; cbn [Model_Cleanup.step].
+    - (* ECInspect *)
+      destruct (wd_phase w) eqn:Ph; try exact I.
+      destruct (iE w I Ph) as [Hincl Hpm].
+      destruct (error_if_tagged_old_versions pol && _).
+      + constructor; cbn [wd_files wd_manifests wd_phase wd_pending wd_pending_m wd_removed wd_writers];
+          try (apply I); try discriminate.
+      + constructor; cbn [wd_files wd_manifests wd_phase wd_pending wd_pending_m wd_removed wd_writers];
+          try (apply I); try discriminate.
+        * intros insp H. inversion H; subst insp. exists (wd_manifests w). split; [reflexivity|]. split; [exact Hincl|].
+          intros m Hm. split; [apply (iF w I m Hm) | apply (iC2 w I m Hm)].
+        * intros v Hv. apply in_map_iff in Hv as (m & <- & Hm). apply insp_old in Hm as [_ Hm]. apply not_ws_lt. exact Hm.
+    - (* ECSee *)
+      destruct (wd_phase w) eqn:Ph; try exact I.
+      destruct (find_file p (wd_files w)) as [f|] eqn:Ff; try exact I.
+      destruct (removes pol now insp f) eqn:Rm; try exact I.
+      destruct (find_file_some _ _ _ Ff) as [Hf ->].
+      destruct (iG w I insp Ph) as (S & -> & Hincl & HS).
+      unfold removes in Rm. apply andb_true_iff in Rm as [_ Rm].
+      constructor; cbn [wd_files wd_manifests wd_phase wd_pending wd_pending_m wd_removed wd_writers]; try (apply I).
+      + intros q [[<-|Hq]|Hq]; [|apply (iD w I); auto|apply (iD w I); auto]. split.
+        * intros m0 Hm0 Hv. eapply decision_safe; [exact Rm | apply Hincl; exact Hm0 | apply ge_ws; exact Hv | apply Hwf0; exact Hm0].
+        * intro t. destruct (tclaims t (f_path f)) eqn:Tc; [exfalso|reflexivity].
+          pose proof (iA w I f t Hf Tc) as Hy.
+          assert (Mip : maybe_in_progress pol now f = true).
+          { unfold maybe_in_progress. rewrite Hdu. cbn [negb andb]. apply N.leb_le. exact Hy. }
+          rewrite Mip in Rm. rewrite decision_in_progress in Rm; [discriminate|].
+          intros m Hm Hw. destruct (HS m Hm) as [_ [Hin|Hge]].
+          -- eapply Hfresh_m; eassumption.
+          -- rewrite (ge_ws m Hge) in Hw. discriminate.
+      + intro H. discriminate.
+      + intros insp0 H. apply (iG w I). rewrite Ph. exact H.
+    - (* ECDelete *)
+      destruct (mem_path p (wd_pending w)) eqn:Mp; try exact I. apply mem_path_In in Mp.
+      constructor; cbn [wd_files wd_manifests wd_phase wd_pending wd_pending_m wd_removed wd_writers]; try (apply I).
+      + intros f t Hf. apply filter_In in Hf as [Hf _]. apply (iA w I). exact Hf.
+      + intros q [Hq|[<-|Hq]]; apply (iD w I); auto. apply filter_In in Hq as [Hq _]. auto.
+      + intros f Hf. destruct (iS w I f Hf) as [H|H]; [left; right; exact H|].
+        destruct (path_eqb p (f_path f)) eqn:E.
+        * apply path_eqb_eq in E. left. left. exact E.
+        * right. apply filter_In. split; [exact H | rewrite E; reflexivity].
+      + intros t f Hf. destruct (iS2 w I t f Hf) as [H|[H|H]]; [left; exact H | right; left; right; exact H|].
+        destruct (path_eqb p (f_path f)) eqn:E.
+        * apply path_eqb_eq in E. right. left. left. exact E.
+        * right. right. apply filter_In. split; [exact H | rewrite E; reflexivity].
+    - (* ECDeleteManifest *)
+      destruct (mem_N v (wd_pending_m w)) eqn:Mv; try exact I. apply mem_N_In in Mv.
+      pose proof (iH w I v Mv) as Hlt.
+      constructor; cbn [wd_files wd_manifests wd_phase wd_pending wd_pending_m wd_removed wd_writers]; try (apply I).
+      + destruct (iB w I) as (m & Hm & Hv). exists m. split; [|exact Hv]. apply filter_In. split; [exact Hm|].
+        apply negb_true_iff. apply N.eqb_neq. lia.
+      + intros m q Hm. apply filter_In in Hm as [Hm _]. apply (iC w I). exact Hm.
+      + intros m Hm. apply filter_In in Hm as [Hm _]. apply (iC2 w I). exact Hm.
+      + intro Ph. destruct (iE w I Ph) as [_ E]. rewrite E in Mv. destruct Mv.
+      + intros m Hm. apply filter_In in Hm as [Hm _]. apply (iF w I). exact Hm.
+      + intros x Hx. apply filter_In in Hx as [Hx _]. apply (iH w I). exact Hx.
+      + intros t m Hc. destruct (iW w I t m Hc) as (A & B & C). split; [|split; assumption].
+        apply filter_In. split; [exact A|]. apply negb_true_iff. apply N.eqb_neq. lia.
+    - (* EW *)
+      destruct (ws_committed (wd_writers w t)) as [mc|] eqn:Cm; try exact I.
+      destruct (ws_todo (wd_writers w t)) as [|f rest] eqn:Td.
+      + (* commit *)
+        set (wr := writers t).
+        set (M := wd_manifests w).
+        set (m := {| m_path := w_mpath wr; m_version := latest_version M + 1; m_ts := w_ts wr; m_size := w_msize wr;
+                     m_refs := refs_add (keep_refs (w_keep wr) (w_keep_idx wr) (latest_refs M)) (w_own wr) |}).
+        assert (Hlat : dsv <= latest_version M).
+        { destruct (iB w I) as (m' & Hm' & Hv'). pose proof (latest_version_ge M m' Hm'). lia. }
+        constructor; cbn [wd_files wd_manifests wd_phase wd_pending wd_pending_m wd_removed wd_writers]; try (apply I).
+        * exists m. split; [left; reflexivity|]. cbn [m_version m]. lia.
+        * intros m' q [<-|Hm'] Hv Ht; [|apply (iC w I m' q Hm' Hv Ht)].
+          cbn [m_refs m] in Ht. apply touches_add in Ht as [Ht|Ht].
+          -- apply touches_keep in Ht. destruct (latest_refs_cases M) as [E|(mL & HmL & HvL & E)]; rewrite E in Ht.
+             ++ rewrite touches_no_refs in Ht. discriminate.
+             ++ apply (iC w I mL q HmL); [lia | exact Ht].
+          -- right. exists t. exact Ht.
+        * intros m' [<-|Hm']; [right; cbn [m_version m]; lia | apply (iC2 w I m' Hm')].
+        * intro Ph. destruct (iE w I Ph) as [A B]. split; [apply incl_tl; exact A | exact B].
+        * intros m' [<-|Hm']; [|apply (iF w I m' Hm')]. cbn [m_refs m]. apply wf_add; [apply wf_keep|apply Hwfw].
+          destruct (latest_refs_cases M) as [E|(mL & HmL & _ & E)]; rewrite E; [apply wf_no_refs | apply (iF w I mL HmL)].
+        * intros t' f. unfold set_writer. destruct (t' =? t) eqn:Et; cbn [ws_todo]; [intros [] | apply (iT w I)].
+        * intros t' m'. unfold set_writer. destruct (t' =? t) eqn:Et; cbn [ws_committed ws_todo].
+          -- intro H. inversion H; subst m'. split; [left; reflexivity|]. split; [cbn [m_version m]; lia | reflexivity].
+          -- intro H. destruct (iW w I t' m' H) as (A & B & C). split; [right; exact A | split; assumption].
+        * intros t' f Hf. unfold set_writer. destruct (t' =? t) eqn:Et; cbn [ws_todo]; [|apply (iS2 w I t' f Hf)].
+          apply N.eqb_eq in Et. subst t'. destruct (iS2 w I t f Hf) as [H|H]; [rewrite Td in H; destruct H | right; exact H].
+      + (* put *)
+        constructor; cbn [wd_files wd_manifests wd_phase wd_pending wd_pending_m wd_removed wd_writers]; try (apply I).
+        * intros g t' [<-|Hg] Hc; [|apply (iA w I g t' Hg Hc)].
+          apply (Hyoung t). apply (iT w I). rewrite Td. left. reflexivity.
+        * intros t' g. unfold set_writer. destruct (t' =? t) eqn:Et; cbn [ws_todo]; [|apply (iT w I)].
+          apply N.eqb_eq in Et. subst t'. intro Hg. apply (iT w I). rewrite Td. right. exact Hg.
+        * intros t' m'. unfold set_writer. destruct (t' =? t) eqn:Et; cbn [ws_committed ws_todo]; [discriminate | apply (iW w I)].
+        * intros g Hg. destruct (iS w I g Hg) as [H|H]; [left; exact H | right; right; exact H].
+        * intros t' g Hg. unfold set_writer. destruct (t' =? t) eqn:Et; cbn [ws_todo].
+          -- apply N.eqb_eq in Et. subst t'. destruct (iS2 w I t g Hg) as [H|[H|H]].
+             ++ rewrite Td in H. destruct H as [<-|H]; [right; right; left; reflexivity | left; exact H].
+             ++ right; left; exact H.
+             ++ right; right; right; exact H.
+          -- destruct (iS2 w I t' g Hg) as [H|[H|H]]; [left; exact H | right; left; exact H | right; right; right; exact H].
+  Qed.
+
+  Lemma inv_run : forall evs w, Inv w -> Inv (run evs w).
+  Proof.
+    induction evs as [|e evs IH]; intros w I; [exact I|]. cbn [Model_Cleanup.run fold_left].
+    apply IH. apply inv_step. exact I.
+  Qed.
+
+  Theorem in_progress_safe : forall evs,
+    let w := run evs (init writers files0 ms0) in
+    (* nothing connected with a published version >= the cleanup's dataset version is ever removed *)
+    (forall m p, In m (wd_manifests w) -> dsv <= m_version m -> In p (wd_removed w) ->
+                 touches (m_refs m) p = false /\ needs m p = false)
+    (* a writer that committed published a version > dsv that is still there and whose files all exist *)
+    /\ (forall t m, ws_committed (wd_writers w t) = Some m ->
+          In m (wd_manifests w) /\ dsv < m_version m /\
+          (forall f, In f (w_puts (writers t)) -> needs m (f_path f) = true -> In f (wd_files w)))
+    (* objects of the initial store that a published version >= dsv needs are still there *)
+    /\ (forall m f, In m (wd_manifests w) -> dsv <= m_version m -> In f files0 -> needs m (f_path f) = true -> In f (wd_files w))
+    (* no manifest of version >= dsv is deleted: in particular the latest one *)
+    /\ (forall v, In v (wd_pending_m w) -> v < dsv).
+  Proof.
+    intros evs w. pose proof (inv_run evs _ inv_init) as I. fold w in I.
+    assert (SAFE : forall m p, In m (wd_manifests w) -> dsv <= m_version m -> In p (wd_removed w) ->
+                   touches (m_refs m) p = false /\ needs m p = false).
+    { intros m p Hm Hv Hp. assert (T : touches (m_refs m) p = false).
+      { destruct (touches (m_refs m) p) eqn:T; [exfalso|reflexivity].
+        destruct (iD w I p (or_intror Hp)) as [D1 D2].
+        destruct (iC w I m p Hm Hv T) as [(m0 & A & B & C)|(t & C)].
+        - rewrite (D1 m0 A B) in C. discriminate.
+        - rewrite (D2 t) in C. discriminate. }
+      split; [exact T|]. unfold needs. destruct (needs_refs (m_refs m) p) eqn:E; [|reflexivity].
+      apply needs_touches in E. congruence. }
+    split; [exact SAFE|]. split; [|split].
+    - intros t m Hc. destruct (iW w I t m Hc) as (A & B & C). split; [exact A|]. split; [exact B|].
+      intros f Hf Hn. destruct (iS2 w I t f Hf) as [H|[H|H]].
+      + rewrite C in H. destruct H.
+      + destruct (SAFE m (f_path f) A (N.lt_le_incl _ _ B) H) as [_ N]. congruence.
+      + exact H.
+    - intros m f Hm Hv Hf Hn. destruct (iS w I f Hf) as [H|H]; [|exact H].
+      destruct (SAFE m (f_path f) Hm Hv H) as [_ N]. congruence.
+    - exact (iH w I).
+  Qed.
+End Race.
